@@ -175,13 +175,28 @@ def record_random(args):
         j = rand_tree(r, ids)
         scripts = {i: bytes([2, i, 6]) + r.choice([b'', push(r.randbytes(3)) + op('SIZE') + op('VERIFY') + op('SIZE') + op('VERIFY') if False else b'',
                                                     op('TRUE') + op('VERIFY')]) + b'\x01' for i in ids}
-        tree = build(T, j, scripts)
         leaf_id = r.choice(ids)
+        if r.random() < 0.3:          # a leaf script whose size sits on a push-size boundary
+            total = r.choice([254, 255, 256, 257, 300, 1000, 1024])
+            npad = total - 4 - (3 if total - 7 < 256 else 4)
+            pad = r.randbytes(npad)
+            scripts[leaf_id] = push(pad) + op('POP0') + bytes([2, leaf_id, 6]) + b'\x01'
+            assert len(scripts[leaf_id]) == total, (len(scripts[leaf_id]), total)
+        tree = build(T, j, scripts)
         leaf = find_leaf(tree, scripts[leaf_id])
         pairs = pairs_of(leaf)
         cor = r.choice(['none', 'none', 'script', 'sib', 'swap', 'drop', 'foreign', 'extra'])
         lvl = r.randrange(1, len(pairs) + 1)
         wit = witness(corrupt(pairs, cor, lvl, r))
+        if cor == 'none':             # the classes' own unlocking script is the bottom-up proof
+            try:
+                own = bytes(leaf.unlocking_script().bytes)
+            except Exception as e:
+                own = f'raised {type(e).__name__}: {e}'
+            if own != wit:
+                out.append({'t': j, 'leaf': leaf_id, 'cor': cor, 'lvl': lvl, 'got': [-1000, 0], 'auth': False,      # (-1000: no leaf can be said to have run)
+                            'detail': 'unlocking_script() ' + (str(own)[:120] if isinstance(own, str) else 'differs from the bottom-up proof')})
+                continue
         marker = lambda p: (p[0][0] if p and len(p) == 1 and len(p[0]) == 1 else 0)
         ran, nst, auth = execute(F, wit, bytes(tree.locking_script().bytes), marker)
         left = (nst - 1) // 2 if ran and nst >= 1 else -1
@@ -198,8 +213,9 @@ def main(tier: str, seed: int) -> int:
                 'to M leaves x every leaf with the specified depth. Every case is replayed: the tree is built with the real '
                 'ScriptLeaf / ScriptNode (or the builders), the proof is assembled bottom-up and corrupted, witness + lock are '
                 'executed; which leaf ran (its marker), items left over, the authorization verdict, pack() bytes and unpack() '
-                'round trip are compared. traces: random shapes up to 24 leaves with random leaf bodies and corruptions at random '
-                'levels, judged by TLC.')
+                'round trip are compared. traces: random shapes up to 24 leaves with random leaf bodies (30 % with a leaf of exactly 254 / '
+                '255 / 256 / 257 / 300 / 1000 / 1024 bytes) and corruptions at random levels; the classes\' own unlocking script must '
+                'equal the bottom-up proof; judged by TLC.')
     rep.assumptions = ['leaf scripts are pairwise different, so sibling commitments differ (precondition of the property)',
                        'symbolic hashes: collisions excluded']
     quick = tier == 'quick'
